@@ -124,6 +124,49 @@ def word_classes(ck, code, extra_words=(), reps=True):
     return out
 
 
+def stream_alphabet(ck, code, quick):
+    """-> (representative words, classes).  quick: the core words of the language + a linking word + ordinary/odd tokens,
+    reduced to one word per behaviour class; thorough: one representative of every behaviour class"""
+    from oracle.langs import CORE_WORDS, CORE_OTHERS
+    mir, res, th, mh = load_mir()
+    if not quick:
+        classes = word_classes(ck, code)
+        return [r for r, _ in classes], classes
+    linking = sorted(w for w in vocabulary_words(mir, res, code, with_inflections=False) if False)
+    words = list(CORE_WORDS[code]) + list(CORE_OTHERS)
+    # one linking word (first INSIGNIFICANT entry that is not a number word or conjunction)
+    ex = new_executor()
+    L = LANGS[code]
+    lang = H.lang_value(ex, L.type_name)
+    fns = interpreter_fns(ex, L)
+    for w in vocabulary_words(mir, res, code, with_inflections=False):
+        if w in words or w == L.conj:
+            continue
+        r = ex.explore(fns['is_linking'], [lang, w])
+        if len(r) == 1 and r[0].ret is True:
+            words.append(w)
+            break
+    classes = word_classes_of(ck, code, words)
+    return [r for r, _ in classes], classes
+
+
+def word_classes_of(ck, code, words):
+    L = LANGS[code]
+    ds, valid = _generic_ds()
+    ex = new_executor(valid, cap=12)
+    lang = H.lang_value(ex, L.type_name)
+    fns = interpreter_fns(ex, L)
+    classes, order = {}, []
+    for w in words:
+        s = word_signature(ex, lang, L, w, ds, fns)
+        if s not in classes:
+            classes[s] = []
+            order.append(s)
+        classes[s].append(w)
+    ck.absorb(ex)
+    return [(classes[s][0], classes[s]) for s in order]
+
+
 class Stream:
     """k word positions with separators between them; token 2i is word i, token 2i+1 separator i"""
 
